@@ -69,7 +69,7 @@ def reply (s : DkgSt) (o : Out) : String :=
   showOut o ++ " | " ++ showState s s.proc.current ++ " | " ++ showState s s.proc.finished
 
 /-- ops (see harness/cmd/verifh/dkgsm.go) -/
-def dkgStep (s : DkgSt) (f : List String) : DkgSt × String :=
+def dkgStep1 (s : DkgSt) (f : List String) : DkgSt × String :=
   match f with
   | ["now", t] => match t.toInt? with
     | some t => ({ s with now := t }, "ok")
@@ -78,6 +78,8 @@ def dkgStep (s : DkgSt) (f : List String) : DkgSt × String :=
     match i.toNat?, fromHex k, fromHex sg with
     | some i, some k, some sg =>
       let p : Participant := { addr, key := k, sig := sg, selfSigOK := ok == "1", keyOK := kok == "1", scheme := sch }
+      -- a well-formed self-signature has the length the model's table gives for the scheme (kyber's point encoding)
+      if ok == "1" && sg.length != schemeSigLen sch then (s, "bad-siglen-table") else
       ({ s with parts := (i, p) :: s.parts.filter (·.1 != i) }, "ok")
     | _, _, _ => (s, "bad-op")
   | ["reset", bid, me] =>
@@ -143,5 +145,26 @@ def dkgStep (s : DkgSt) (f : List String) : DkgSt × String :=
     (s', reply s' out)
   | ["dump"] => (s, reply s .ok)
   | _ => (s, "bad-op")
+
+def splitAtSep (l : List String) : List String × List String :=
+  (l.takeWhile (· != ";;"), (l.dropWhile (· != ";;")).drop 1)
+
+def classOf (reply : String) : String := (reply.splitOn " | ").headD reply
+
+/-- `seq <op A> ;; <op B>`: the two operations of a gated pair, in the order the implementation completed them -/
+def dkgStep (s : DkgSt) (f : List String) : DkgSt × String :=
+  match f with
+  | "seq" :: rest =>
+    let (a, b) := splitAtSep rest
+    let st0 := showState s s.proc.current ++ showState s s.proc.finished
+    let (s1, r1) := dkgStep1 s a
+    let st1 := showState s1 s1.proc.current ++ showState s1 s1.proc.finished
+    let (s2, r2) := dkgStep1 s1 b
+    let st2 := showState s2 s2.proc.current ++ showState s2 s2.proc.finished
+    let nm (q : DkgSt) : String := match q.proc.current with | some d => d.state.name | none => "Fresh"
+    let saves := (if st1 != st0 then [nm s1] else []) ++ (if st2 != st1 then [nm s2] else [])
+    let sv := if saves.isEmpty then "-" else ",".intercalate saves
+    (s2, s!"{classOf r1} ;; {classOf r2} ;; saves={sv} | {showState s2 s2.proc.current} | {showState s2 s2.proc.finished}")
+  | _ => dkgStep1 s f
 
 end Drand.Driver.DkgD
